@@ -90,6 +90,7 @@ TRUSTED = ['Mem/MemDefs.v arr_step/arr_run/hist_reads (array specification, prov
            'the C structs']
 
 M64 = (1 << 64) - 1
+PRIMARY = ('sim', 'fast', 'compiled', 'synth', 'synth+opt')
 _REPORTED = {}
 _CTX = []          # the (capped) ctx, for the structural gates inside the runners
 _WORKDIR = []
@@ -1621,8 +1622,8 @@ def walk_part(ctx, chk, walks):
                 fl = {'sim': flags[3], 'fast': flags[4]}.get(backend, flags[3])
                 chk.compare(cfg, backend, content, dflt, hist, py_reads, py_final, r[0][0], r[1][0], [0, 1], replay, 'items',
                             tie=(fl, None if mfinal is None else [tuple(x) for x in r[1][0]] == mfinal))
-            # one case per window of `order` consecutive operations
-            for t in range(len(hist) - order + 1):
+            # one case per window of `order` consecutive operations (primary back-ends; one per walk for the others)
+            for t in (range(len(hist) - order + 1) if backend in PRIMARY else (0,)):
                 ctx.case(('walk', backend, cfg.nw, cfg.nr, cfg.label, order, dflt, len(content), t), nontrivial=True,
                          sample=dict(replay, backend=backend, window_of_operations=hist[t:t + order],
                                      reads=r[0][0][t:t + order])
@@ -1712,7 +1713,7 @@ def twin_part(ctx, chk, order, init_pairs, dflts):
                 fl = {'sim': flags[3], 'fast': flags[4]}.get(backend, flags[3])
                 chk.compare(cfg, backend, inits[k], dflt, hist, py_reads, py_final, r[0][k], r[1][k], [0, 1], replay, 'items',
                             tie=(fl, None if mfinal is None else [tuple(x) for x in r[1][k]] == mfinal))
-            for t in range(len(hist) - order + 1):
+            for t in (range(len(hist) - order + 1) if backend in PRIMARY else (0,)):
                 ctx.case(('twin', backend, k, order, dflt, repr(inits), t), nontrivial=True,
                          sample=dict(replay, backend=backend, joint_operations='(wa, ra, dataA, enA, dataB, enB)',
                                      window=seq[t:t + order], reads_of_this_memory=r[0][k][t:t + order])
@@ -2054,21 +2055,21 @@ def run(real_ctx):
         _timed(ctx, 'hashmap_part', hashmap_part, ctx, nseq=36, nops=60)
     else:
         _timed(ctx, 'sweep_part', sweep_part, ctx, chk, [(1, 1), (2, 1), (1, 2), (2, 2), (3, 1), (3, 2), (1, 3)], [0, 1])
-        _timed(ctx, 'walk_part', walk_part, ctx, chk, [(1, 1, 4, [[], [(0, 1)], [(1, 1), (0, 0)]], [0, 1]),
+        _timed(ctx, 'walk_part', walk_part, ctx, chk, [(1, 1, 4, [[], [(1, 1), (0, 0)]], [0, 1]),
                              (2, 1, 2, [[], [(1, 1)]], [0, 1]),
                              (1, 2, 3, [[], [(0, 1)]], [0, 1]),
                              (2, 2, 2, [[], [(1, 0)]], [0]),
-                             (1, 0, 4, [[(1, 1)], [], [(0, 1), (1, 0)]], [0, 1], {'label': 'write-only memory (no read port), observed through inspect_mem'}),
+                             (1, 0, 3, [[(1, 1)], [], [(0, 1), (1, 0)]], [0, 1], {'label': 'write-only memory (no read port), observed through inspect_mem'}),
                              (2, 0, 3, [[(0, 1)], []], [0, 1], {'label': 'write-only memory (no read port), observed through inspect_mem'}),
-                             (1, 1, 4, [[], [(0, 1)]], [0], {'wk': [('in', 'reg', 'reg', 0)], 'label': 'write data and enable from registers'}),
+                             (1, 1, 4, [[]], [0], {'wk': [('in', 'reg', 'reg', 0)], 'label': 'write data and enable from registers'}),
                              (1, 1, 3, [[], [(1, 1)]], [0], {'wk': [('reg', 'in', 'in', 0)], 'rk': ['reg'], 'label': 'write address and read address from registers'}),
                              (2, 1, 2, [[], [(0, 1), (1, 1)]], [0], {'wk': [('in', 'in', 'in', 0), ('in', 'in', 'c0', 0)], 'pred': lambda op: op[0][1][2] == 0, 'label': 'second port tied off (enable Const 0)'}),
                              (2, 1, 3, [[], [(1, 0)]], [0], {'wk': [('in', 'reg', 'in', 0), ('const', 'in', 'c1', 1)], 'pred': lambda op: op[0][1][2] == 1 and op[0][1][0] == 1, 'label': 'second port always writes address 1 (Const address, Const 1 enable), first port data from a register'}),
-                             (1, 1, 4, [[], [(0, 1)]], [0, 1], {'branches': [False, True], 'label': 'one port under conditional_assignment: a plain branch and an EnabledWrite branch'}),
+                             (1, 1, 3, [[], [(0, 1)], [(1, 0)]], [0, 1], {'branches': [False, True], 'label': 'one port under conditional_assignment: a plain branch and an EnabledWrite branch'}),
                              (1, 1, 3, [[], [(1, 1)]], [0, 1], {'branches': [True, False, True], 'label': 'one port under conditional_assignment: EnabledWrite, plain, EnabledWrite branches'}),
                              (1, 1, 3, [[], [(0, 1)]], [0], {'wk': [('reg', 'reg', 'implicit', 0)], 'pred': lambda op: op[0][0][2] == 1, 'label': 'unconditional write, address and data from registers'})])
         _timed(ctx, 'twin_part', twin_part, ctx, chk, 2, [[[], []], [[], [(0, 1)]], [[(1, 1)], []], [[(0, 0)], [(0, 1), (1, 1)]]], [0, 1])
-        _timed(ctx, 'random_part', random_part, ctx, chk, ndesigns=700, ncyc_range=(30, 120), compiled_every=1, post_every=2, verilog_every=2)
+        _timed(ctx, 'random_part', random_part, ctx, chk, ndesigns=500, ncyc_range=(30, 120), compiled_every=1, post_every=2, verilog_every=2)
         _timed(ctx, 'rom_part', rom_part, ctx, ndesigns=60, per_design=6)
         _timed(ctx, 'hashmap_part', hashmap_part, ctx, nseq=300, nops=120)
 
